@@ -96,7 +96,12 @@ end Fs.Merge
 
 namespace Fs.Merge
 
-def mkRow (k : Cand) : TRow := { key := k.s.key, x := 0, v := k.s.y }
+/-- the row inserted for candidate `k` (by the insert clause at its index) -/
+def mkRow (cs : List Clause) (k : Cand) : TRow := mkRowAt cs k.op k.s
+
+theorem mkRow_key (cs : List Clause) (k : Cand) : (mkRow cs k).key = k.s.key := by
+  unfold mkRow mkRowAt
+  split <;> rfl
 
 /-- state of original row `t` after the clauses with index `< i` -/
 def g (cs : List Clause) (src : List SRow) (i : Nat) (t : TRow) : Option TRow :=
@@ -107,7 +112,7 @@ def g (cs : List Clause) (src : List SRow) (i : Nat) (t : TRow) : Option TRow :=
 /-- rows inserted by clause `j` -/
 def insAt (cs : List Clause) (cd : List Cand) (j : Nat) : List TRow :=
   match cs[j]? with
-  | some (Clause.nInsert _) => (cd.filter (fun k => k.op == j)).map mkRow
+  | some (Clause.nInsert _ _) => (cd.filter (fun k => k.op == j)).map (mkRow cs)
   | _ => []
 
 /-- rows inserted by the insert clauses with index `< i` -/
@@ -137,7 +142,7 @@ theorem on_of_keys {t'' : TRow} {r : TRow} {s s' : SRow} (h1 : on t'' s' = true)
 /-- an inserted row is never hit by a matched clause -/
 theorem ins_not_hit {cs tgt src} {r : TRow} {i : Nat} {k : Cand}
     (hk : k ∈ cands cs tgt src) (hj : ∃ c, cs[k.op]? = some c ∧ c.matched = false)
-    (hr : r = mkRow k) (hi : ∃ c, cs[i]? = some c ∧ c.matched = true) :
+    (hr : r = mkRow cs k) (hi : ∃ c, cs[i]? = some c ∧ c.matched = true) :
     (cands cs tgt src).any (fun k' => on r k'.s && k'.op == i) = false := by
   rw [List.any_eq_false]
   intro k' hk'
@@ -151,7 +156,7 @@ theorem ins_not_hit {cs tgt src} {r : TRow} {i : Nat} {k : Cand}
       rw [hc] at hc'; cases hc'; simp [hm] at hm'
     · exact hno
   rcases mem_cands.mp hk' with ⟨t'', ht'', _, hon'', _⟩ | ⟨_, _, hopN⟩
-  · have : on t'' k.s = true := on_of_keys hon'' hon (by simp [hr, mkRow])
+  · have : on t'' k.s = true := on_of_keys hon'' hon (by rw [hr]; exact mkRow_key cs k)
     simp [hkN t'' ht''] at this
   · obtain ⟨c, hc, hm⟩ := opN_insert hopN
     obtain ⟨c', hc', hm'⟩ := hi
@@ -235,16 +240,16 @@ end Fs.Merge
 
 namespace Fs.Merge
 
-def upd (cd : List Cand) (i : Nat) (t : TRow) : TRow :=
+def upd (f : List Nat → List Nat → List Nat) (cd : List Cand) (i : Nat) (t : TRow) : TRow :=
   match cd.find? (fun k => on t k.s && k.op == i) with
-  | some k => { t with v := k.s.y } | none => t
+  | some k => { t with vals := f t.vals k.s.vals } | none => t
 
-theorem mutate_update (cd tgt i k0) : mutate cd tgt i (Clause.mUpdate k0) = tgt.map (upd cd i) := rfl
+theorem mutate_update (cd tgt i k0 f) : mutate cd tgt i (Clause.mUpdate k0 f) = tgt.map (upd f cd i) := rfl
 
 /-- A-part, update clause -/
-theorem stepA_update {cs tgt src i k0} (h1 : H1 tgt src) (h2 : H2 cs tgt src)
-    (hc : cs[i]? = some (Clause.mUpdate k0)) :
-    (tgt.filterMap (g cs src i)).map (upd (cands cs tgt src) i) = tgt.filterMap (g cs src (i+1)) := by
+theorem stepA_update {cs tgt src i k0 f} (h1 : H1 tgt src) (h2 : H2 cs tgt src)
+    (hc : cs[i]? = some (Clause.mUpdate k0 f)) :
+    (tgt.filterMap (g cs src i)).map (upd f (cands cs tgt src) i) = tgt.filterMap (g cs src (i+1)) := by
   rw [List.map_filterMap]
   apply filterMap_congr'
   intro t ht
@@ -286,16 +291,16 @@ theorem stepA_update {cs tgt src i k0} (h1 : H1 tgt src) (h2 : H2 cs tgt src)
       rw [this]
 
 theorem mem_insUpTo {cs cd i r} (h : r ∈ insUpTo cs cd i) :
-    ∃ k ∈ cd, r = mkRow k ∧ ∃ c, cs[k.op]? = some c ∧ c.matched = false := by
+    ∃ k ∈ cd, r = mkRow cs k ∧ ∃ c, cs[k.op]? = some c ∧ c.matched = false := by
   unfold insUpTo at h
   simp only [List.mem_flatMap, List.mem_range] at h
   obtain ⟨j, _, hj⟩ := h
   unfold insAt at hj
   split at hj
-  · next k0 hc =>
+  · next k0 mk0 hc =>
     simp only [List.mem_map, List.mem_filter, beq_iff_eq] at hj
     obtain ⟨k, ⟨hk, hop⟩, rfl⟩ := hj
-    exact ⟨k, hk, rfl, Clause.nInsert k0, by rw [hop, hc], rfl⟩
+    exact ⟨k, hk, rfl, Clause.nInsert k0 mk0, by rw [hop, hc], rfl⟩
   · simp at hj
 
 theorem stepB_delete {cs tgt src i c} (hc : cs[i]? = some c) (hm : c.matched = true) :
@@ -307,8 +312,8 @@ theorem stepB_delete {cs tgt src i c} (hc : cs[i]? = some c) (hm : c.matched = t
   obtain ⟨k, hk, hrk, hj⟩ := mem_insUpTo hr
   simp [ins_not_hit hk hj hrk ⟨c, hc, hm⟩]
 
-theorem stepB_update {cs tgt src i c} (hc : cs[i]? = some c) (hm : c.matched = true) :
-    (insUpTo cs (cands cs tgt src) i).map (upd (cands cs tgt src) i)
+theorem stepB_update {cs tgt src i c} (f : List Nat → List Nat → List Nat) (hc : cs[i]? = some c) (hm : c.matched = true) :
+    (insUpTo cs (cands cs tgt src) i).map (upd f (cands cs tgt src) i)
       = insUpTo cs (cands cs tgt src) i := by
   conv => rhs; rw [← List.map_id (insUpTo cs (cands cs tgt src) i)]
   apply List.map_congr_left
@@ -365,10 +370,10 @@ theorem implGo_inv {cs tgt src} (h1 : H1 tgt src) (h2 : H2 cs tgt src) :
       simp only [mutate, List.filter_append]
       rw [stepA_delete h1 h2 hci, stepB_delete hci rfl, insUpTo_succ]
       simp [insAt, hci]
-    | mUpdate k0 =>
-      rw [mutate_update, List.map_append, stepA_update h1 h2 hci, stepB_update hci rfl, insUpTo_succ]
+    | mUpdate k0 f =>
+      rw [mutate_update, List.map_append, stepA_update h1 h2 hci, stepB_update f hci rfl, insUpTo_succ]
       simp [insAt, hci]
-    | nInsert k0 =>
+    | nInsert k0 mk0 =>
       simp only [mutate]
       rw [insUpTo_succ, List.append_assoc]
       congr 1
@@ -378,7 +383,12 @@ theorem implGo_inv {cs tgt src} (h1 : H1 tgt src) (h2 : H2 cs tgt src) :
         intro e
         obtain ⟨c', hc', hm'⟩ := rowOp_matched e
         rw [hci] at hc'; cases hc'; simp [Clause.matched] at hm'
-      · simp [insAt, hci, mkRow]
+      · simp only [insAt, hci]
+        congr 1
+        apply List.map_congr_left
+        intro k hk
+        have hop : k.op = i := by simpa using (List.mem_filter.mp hk).2
+        simp [mkRow, mkRowAt, hop, hci]
 
 theorem g_zero {cs src t} : g cs src 0 t = some t := by
   unfold g; split <;> simp
@@ -463,7 +473,7 @@ theorem g_len_eq_spec {cs src t} : g cs src cs.length t = specRow cs src t := by
 def candsN (cs : List Clause) (tgt : List TRow) (src : List SRow) : List Cand :=
   (src.filter fun s => !(tgt.any fun t => on t s)).filterMap fun s => (opN cs s).map fun i => ⟨s, i⟩
 
-theorem specInserts_eq {cs tgt src} : specInserts cs tgt src = (candsN cs tgt src).map mkRow := by
+theorem specInserts_eq {cs tgt src} : specInserts cs tgt src = (candsN cs tgt src).map (mkRow cs) := by
   unfold specInserts candsN
   rw [List.map_filterMap]
   apply filterMap_congr'
@@ -471,7 +481,7 @@ theorem specInserts_eq {cs tgt src} : specInserts cs tgt src = (candsN cs tgt sr
   cases opN cs s <;> simp [mkRow]
 
 theorem insAt_eq {cs tgt src j} (hj : j < cs.length) :
-    insAt cs (cands cs tgt src) j = ((candsN cs tgt src).filter fun k => k.op == j).map mkRow := by
+    insAt cs (cands cs tgt src) j = ((candsN cs tgt src).filter fun k => k.op == j).map (mkRow cs) := by
   have hN : ∀ k ∈ candsN cs tgt src, ∃ c, cs[k.op]? = some c ∧ c.matched = false := by
     intro k hk
     simp only [candsN, List.mem_filterMap, Option.map_eq_some_iff] at hk
@@ -486,7 +496,7 @@ theorem insAt_eq {cs tgt src j} (hj : j < cs.length) :
   unfold insAt
   have hc : cs[j]? = some cs[j] := by simp [hj]
   cases hcj : cs[j] with
-  | nInsert k0 =>
+  | nInsert k0 mk0 =>
     rw [hc, hcj]
     simp only
     congr 1
@@ -509,7 +519,7 @@ theorem insAt_eq {cs tgt src j} (hj : j < cs.length) :
     simp only [beq_iff_eq] at hop
     obtain ⟨c, hc', hm⟩ := hN k hk
     rw [hop, hc, hcj] at hc'; cases hc'; simp [Clause.matched] at hm
-  | mUpdate k0 =>
+  | mUpdate k0 f0 =>
     rw [hc, hcj]
     simp only
     symm
@@ -524,11 +534,11 @@ theorem ins_perm {cs tgt src} :
   rw [specInserts_eq]
   unfold insUpTo
   have : (List.range cs.length).flatMap (insAt cs (cands cs tgt src)) =
-      ((List.range cs.length).flatMap fun j => (candsN cs tgt src).filter fun k => k.op == j).map mkRow := by
+      ((List.range cs.length).flatMap fun j => (candsN cs tgt src).filter fun k => k.op == j).map (mkRow cs) := by
     rw [List.map_flatMap]
     have hcongr : ∀ (l : List Nat), (∀ j ∈ l, j < cs.length) →
         l.flatMap (insAt cs (cands cs tgt src)) =
-        l.flatMap fun j => ((candsN cs tgt src).filter fun k => k.op == j).map mkRow := by
+        l.flatMap fun j => ((candsN cs tgt src).filter fun k => k.op == j).map (mkRow cs) := by
       intro l
       induction l with
       | nil => intro _; rfl
@@ -555,10 +565,5 @@ theorem merge_partial {cs tgt src} (h1 : H1 tgt src) (h2 : H2 cs tgt src) :
   rw [filterMap_congr' (g := specRow cs src) (fun t _ => g_len_eq_spec)]
   exact ins_perm.append_left _
 
-
-/-- non-vacuity: a non-trivial instance satisfies H1 and H2 -/
-def csE : List Clause := [.mDelete (fun _ s => s.y == 0), .mUpdate (fun _ _ => true), .nInsert (fun _ => true)]
-def tgtE : List TRow := [⟨some 1, 1, 10⟩, ⟨some 1, 2, 20⟩, ⟨some 2, 1, 30⟩, ⟨none, 0, 0⟩]
-def srcE : List SRow := [⟨some 1, 99⟩, ⟨some 2, 0⟩, ⟨some 3, 77⟩, ⟨none, 5⟩]
 
 end Fs.Merge
